@@ -665,7 +665,7 @@ class CommitRun:
         self.commits = []
         self.ops = []
         self.ids = {}
-        if kind in ("worktree", "porcelain", "amend", "merge", "merge-noff", "pull"):
+        if kind in ("worktree", "porcelain", "amend", "merge", "merge-noff", "pull", "rebase"):
             from dulwich.repo import Repo
             r = Repo.init(self.root)
             self.tree = r.object_store.add_object  # placeholder
@@ -675,6 +675,26 @@ class CommitRun:
             self.tree_id = t.id
             c0 = r.get_worktree().commit(message=b"c0", committer=b"a <a@b>", author=b"a <a@b>", commit_timestamp=1,
                                          commit_timezone=0, author_timestamp=1, author_timezone=0, tree=t.id)
+            if kind == "rebase":
+                # refs/heads/up is one commit ahead of c0, the current branch has a commit m1 of its own on c0:
+                # rebasing the branch onto up rewrites m1 as m1' (parent up).  m1 plays the part of "c0" below.
+                from dulwich.objects import Commit
+
+                def mk(parent, msg, ts):
+                    c_ = Commit()
+                    c_.tree = t.id
+                    c_.parents = [parent]
+                    c_.author = c_.committer = b"a <a@b>"
+                    c_.author_time = c_.commit_time = ts
+                    c_.author_timezone = c_.commit_timezone = 0
+                    c_.message = msg
+                    r.object_store.add_object(c_)
+                    return c_.id
+                upc = mk(c0, b"upstream", 5)
+                r.refs[b"refs/heads/up"] = upc
+                m1 = mk(c0, b"mine", 6)
+                r.refs[r.refs.follow(b"HEAD")[0][-1]] = m1
+                c0 = m1
             if kind == "pull":
                 # an upstream repository (outside the interposed directory) one commit ahead of c0: pulling it is a
                 # fast-forward of the current branch
@@ -737,7 +757,7 @@ class CommitRun:
 
     def actor(self, a):
         def body():
-            if self.kind in ("worktree", "porcelain", "amend", "merge", "merge-noff", "pull"):
+            if self.kind in ("worktree", "porcelain", "amend", "merge", "merge-noff", "pull", "rebase"):
                 from dulwich.repo import Repo
                 r = Repo(self.root)
                 commit = lambda: r.get_worktree().commit(
@@ -760,7 +780,19 @@ class CommitRun:
                         commit = lambda: porcelain.commit(
                             r, message=b"by %d" % a, committer=b"a <a@b>", author=b"a <a@b>", commit_timestamp=10 + a,
                             commit_timezone=0, author_timestamp=10 + a, author_timezone=0, sign=False)
-                if self.kind == "pull" and a == 0:
+                if self.kind == "rebase" and a == 0:
+                    from dulwich import porcelain
+
+                    def commit():
+                        new = porcelain.rebase(r, b"refs/heads/up")
+                        self.rebased_n = len(new)
+                        return new[-1]
+                elif self.kind == "rebase":
+                    from dulwich import porcelain
+                    commit = lambda: porcelain.commit(
+                        r, message=b"by %d" % a, committer=b"a <a@b>", author=b"a <a@b>", commit_timestamp=10 + a,
+                        commit_timezone=0, author_timestamp=10 + a, author_timezone=0, sign=False)
+                elif self.kind == "pull" and a == 0:
                     from dulwich import porcelain
                     import io
 
@@ -819,7 +851,7 @@ class CommitRun:
             self.world.note("retop")
             rec["r"] = self.world.seq
             self.ops.append(rec)
-            if self.kind in ("worktree", "porcelain", "amend", "merge", "merge-noff", "pull"):
+            if self.kind in ("worktree", "porcelain", "amend", "merge", "merge-noff", "pull", "rebase"):
                 r.close()
         return body
 
@@ -846,7 +878,7 @@ class CommitRun:
                 for name, orig in patched:
                     setattr(DictRefsContainer, name, orig)
         self.sched = s
-        if self.kind in ("worktree", "porcelain", "amend", "merge", "merge-noff", "pull"):
+        if self.kind in ("worktree", "porcelain", "amend", "merge", "merge-noff", "pull", "rebase"):
             from dulwich.repo import Repo
             r = Repo(self.root)
             tip = r.refs[b"HEAD"]
@@ -885,6 +917,16 @@ class CommitRun:
                     o["old"] = rep["id"] if rep else 0
                     if rep:
                         rep["ok"] = False       # legitimately dropped from the history
+        if self.kind == "rebase":
+            # the rebase swaps the branch from the head it started from (m1 = 1 when it rewrote one commit, the other
+            # actor's commit when it rewrote two) to the last rewritten commit; rewriting replaces commits by design, so
+            # only the values are judged here
+            other = next((o for o in ops if o["a"] != 0 and not o["exc"]), None)
+            for o in ops:
+                if o["a"] == 0 and not o["exc"]:
+                    o["old"] = 1 if getattr(self, "rebased_n", 1) == 1 or other is None else other["new"]
+            for c in commits:
+                c["ok"] = False
         commits = [{k: c[k] for k in ("id", "parent", "ok")} for c in commits]
         return {"tid": tid, "init": [1], "final": [self.tip], "hinit": 1, "hfinal": 1,
                 "ops": [dict({k: o[k] for k in ("k", "n", "old", "new", "res", "exc", "c", "r")}, via=0) for o in ops],
@@ -1306,6 +1348,7 @@ def run(ctx):
                                          ("merge", 2, False, ctx.pick(1, 2), ctx.pick(200, 4000)),
                                          ("merge-noff", 2, False, ctx.pick(1, 2), ctx.pick(150, 4000)),
                                          ("pull", 2, False, ctx.pick(1, 2), ctx.pick(150, 4000)),
+                                         ("rebase", 2, False, ctx.pick(1, 2), ctx.pick(150, 4000)),
                                          ("porcelain", 2, True, ctx.pick(1, 2), ctx.pick(100, 4000)),
                                          ("memory", 2, False, 3, None), ("memory", 3, False, 2, ctx.pick(150, 5000))]:
         def run_once(prefix, kind=kind, n=n, packed=packed):
@@ -1319,7 +1362,7 @@ def run(ctx):
             ncommit += 1
             t = r.trace(tid)
             traces.append(t)
-            site = {"worktree": "dulwich/worktree.py:WorkTree.commit", "porcelain": "dulwich/porcelain:commit", "amend": "dulwich/porcelain:commit(amend=True)", "merge": "dulwich/porcelain:merge", "merge-noff": "dulwich/porcelain:merge(no_ff)", "pull": "dulwich/porcelain:pull"}.get(kind, "dulwich/repo.py:MemoryRepo.do_commit")
+            site = {"worktree": "dulwich/worktree.py:WorkTree.commit", "porcelain": "dulwich/porcelain:commit", "amend": "dulwich/porcelain:commit(amend=True)", "merge": "dulwich/porcelain:merge", "merge-noff": "dulwich/porcelain:merge(no_ff)", "pull": "dulwich/porcelain:pull", "rebase": "dulwich/porcelain:rebase"}.get(kind, "dulwich/repo.py:MemoryRepo.do_commit")
             meta[tid] = {"sig": f"{site}|LostCommit|actors={n} packed={packed}",
                          "desc": f"{n} concurrent commits ({kind}): {r.commits} tip={r.tip} results={[(o['res'], o.get('excname')) for o in r.ops]}",
                          "choices": s.choices(), "kind": kind}
